@@ -13,7 +13,7 @@ Section Emit.
   Variable pres : bytes -> bytes.
 
   Definition Emit (m : fmap) (p : bytes * N * N) : Prop :=
-    exists f, In f m /\ f_ix f = Some (snd p) /\ fst (fst p) = pres (f_name f).
+    exists f, In f m /\ f_ix f = Some (snd p) /\ fst (fst p) = f_name f.
 
   Lemma emit_bump (m : fmap) k f0 fix_ tot p :
     map_get k m = Some f0 -> (forall i, f_ix f0 = Some i -> fix_ = Some i) ->
